@@ -307,10 +307,12 @@ class SynthIntKeyCollectionManager(DefaultCollectionManager[int]):
         """Convert rows returned from collection chain query to a list of
         records.
         """
-        chains_defs: dict[int, list[tuple[int, str]]] = {chain_id: [] for chain_id in chained_ids}
+        # The recursive query returns the rows of a chain once per path that
+        # reaches it, so collect them in a set to avoid duplicated children.
+        chains_defs: dict[int, set[tuple[int, str]]] = {chain_id: set() for chain_id in chained_ids}
         for row in rows:
             if row["parent"] is not None:
-                chains_defs[row["parent"]].append((row["position"], row["name"]))
+                chains_defs[row["parent"]].add((row["position"], row["name"]))
 
         records: list[CollectionRecord[int]] = []
         for key, children in chains_defs.items():
